@@ -91,7 +91,7 @@ func conc(args []string) {
 			lines := append([]drive.Line(nil), base.Lines...)
 			visit := func(prefix []string, r *drive.ConcResult) error {
 				ln := drive.Line{Case: cases[i].N, Conc: true, Ops: cases[i].Par, Ress: r.Ress, CSeq: r.CSeq, Chain: r.Chain,
-					St: r.Post, Sched: strings.Join(prefix, ","),
+					St: r.Post, Blk: r.Blk, Quiet: r.Quiet, Sched: strings.Join(prefix, ","),
 					Prop: drive.PropOfFamily(cases[i].Family), Fam: cases[i].Family}
 				ln.Op.L = "l1"
 				if cases[i].Target != "" {
